@@ -9,6 +9,7 @@
   this model (C22).   Import-free (core only).
 -/
 import Nervus.Model.Eval
+import Nervus.Model.Generated.OrderBy
 namespace Nervus
 namespace Order
 open Eval
@@ -51,7 +52,15 @@ def skip {α} (n : Nat) (rows : List α) : List α := rows.drop n
 /-- `Iterator::take(n)` (plan_tail.rs `execute_limit`) -/
 def limit {α} (n : Nat) (rows : List α) : List α := rows.take n
 
-/-- `ORDER BY … SKIP s LIMIT l`: the planner stacks Limit(Skip(OrderBy(input))) -/
+/-- The shape of the source this model covers, regenerated on every run (`Generated/OrderBy.lean`, recogniser
+    `table_orderby` of tools/extract.py; unknown shapes make the recogniser fail): `execute_order_by` takes no row
+    bound and buffers + sorts its WHOLE input; `execute_skip` / `execute_limit` are `skip(n)` / `take(n)` over the
+    unrestricted input plan (errors aside: C22).  A top-k variant of ORDER BY would have to satisfy
+    `Proofs.TopK.topk_drop_sound`. -/
+def orderByBuffersAll : Bool := !Generated.orderByPrunesWithBound && Generated.skipLimitArePlain
+
+/-- `ORDER BY … SKIP s LIMIT l`: the planner stacks Limit(Skip(OrderBy(input))) and each operator executes its
+    input plan unrestricted (`execute_plan(snapshot, input, params)`) -/
 def orderBySkipLimit {α} (E : Env) (s : Option Nat) (l : Option Nat) (rows : List (Keyed α)) : List (Keyed α) :=
   let sorted := orderBy E rows
   let skipped := match s with | some n => skip n sorted | none => sorted
